@@ -461,7 +461,7 @@ def check(ctx, replay=None):
     ks = sorted(OPTSETS)
     drvs = {}
     for batch in (ks[:4], ks[4:]):
-        d = ctx.build_many([("c04_drv.cpp", "o%d" % k, ["-DOPTSET=%d" % k]) for k in batch])
+        d = ctx.build_many([("c04_drv.cpp", "o%d" % k, ["-DOPTSET=%d" % k] + core.release_flags("c04o%d" % k)) for k in batch])
         drvs.update({k: d["o%d" % k] for k in batch})
     orc = ctx.build_oracle("c04")
     allcases = []     # (k, ops, origin)
